@@ -13,7 +13,7 @@ mod bodies {
 
     /// C19.a: `Encoder::{new,push,finish}` followed by `Iter` / `decode`, for every subset of the
     /// control messages `prepare_msg` emits, in the order it emits them, with arbitrary values:
-    /// every write stays inside the 96-byte aligned control buffer (Kani's pointer checks),
+    /// every write stays inside the `cmsg::LEN`-byte aligned control buffer (Kani's pointer checks),
     /// `msg_controllen` ends up as the sum of CMSG_SPACE of what was pushed, iterating yields
     /// exactly the same (level, type, value) sequence and then ends.
     pub fn encode_iter_roundtrip(v6: bool, use_tos: bool, tos: i32, use_seg: bool, seg: u16, use_pktinfo: bool, addr4: u32, addr6: [u8; 16], ifindex: u32) -> u32 {
